@@ -32,18 +32,20 @@ class CFG(object):
         self.func = func
         self.nodes = []
         self.g = nx.DiGraph()
+        self.stmt_nodes = {}   # id(S) -> list of node ids created for it
         self.entry = self.new("entry")
         self.exit = self.new("exit")
         self.labels = {}
         self.gotos = []
         self._dom = None
         self._pdom = None
-        self.stmt_nodes = {}   # id(S) -> list of node ids created for it
 
     def new(self, k, **kw):
         n = Node(len(self.nodes), k, **kw)
         self.nodes.append(n)
         self.g.add_node(n.id)
+        if kw.get("s") is not None:
+            self.stmt_nodes.setdefault(id(kw["s"]), []).append(n.id)
         return n
 
     def edge(self, a, b):
@@ -225,12 +227,16 @@ class _Builder(object):
         if k == "break":
             if brk is None:
                 raise AnalysisError("break outside loop at line %s" % s.line)
-            brk.extend(preds)
+            n = c.new("join", line=s.line, s=s)      # a node of its own, so that the statement can be located in the graph
+            self._link(preds, n)
+            brk.append(n)
             return []
         if k == "continue":
             if cont is None:
                 raise AnalysisError("continue outside loop at line %s" % s.line)
-            cont.extend(preds)
+            n = c.new("join", line=s.line, s=s)
+            self._link(preds, n)
+            cont.append(n)
             return []
         if k == "goto":
             n = c.new("join", line=s.line, s=s)
